@@ -21,9 +21,11 @@ CONSTANTS NCan, NAdd, Outcomes, DelegateCancellable, Bug
 NoOne == <<"none", 0>>
 SET == <<"set", 0>>
 W == <<"w", 0>>
+W2 == <<"w", 2>>      \* a second client, blocked in concurrent.futures.wait(): released through the future's waiter list,
+                      \* i.e. by set_result / set_exception / set_running_or_notify_cancel - not by the bare cancel()
 Can(i) == <<"can", i>>
 Add(k) == <<"add", k>>
-Threads == {SET, W} \cup {Can(i) : i \in 1..NCan} \cup {Add(k) : k \in 1..NAdd}
+Threads == {SET, W, W2} \cup {Can(i) : i \in 1..NCan} \cup {Add(k) : k \in 1..NAdd}
 
 VARIABLES outcome, pc, lock, state, cbs, dstate, cancelling, torun, obs, viol, actor
 vars == <<outcome, pc, lock, state, cbs, dstate, cancelling, torun, obs, viol, actor>>
@@ -41,7 +43,7 @@ ThrName(t) == IF t[1] = "can" THEN (IF t[2] = 1 THEN "can1" ELSE "can2") ELSE "t
 
 Init ==
   /\ outcome \in Outcomes
-  /\ pc = [t \in Threads |-> IF t = SET THEN "start" ELSE IF t = W THEN "w_call" ELSE "call"]
+  /\ pc = [t \in Threads |-> IF t = SET THEN "start" ELSE IF t \in {W, W2} THEN "w_call" ELSE "call"]
   /\ lock = NoOne /\ state = "PENDING" /\ cbs = <<>> /\ dstate = "pending" /\ cancelling = FALSE
   /\ torun = [t \in Threads |-> <<>>]
   /\ obs = ObsInit /\ viol = "ok" /\ actor = NoOne
@@ -61,12 +63,16 @@ SetLocked ==    \* with _me_lock: set_result (or, for a cancelled delegate, canc
   /\ IF Done \/ (dstate = "cancelled" /\ cancelling)
        THEN \* try_set_result on a finished future is tolerated; our own cancel() handles its delegate
             /\ pc' = [pc EXCEPT ![SET] = "done"] /\ UNCHANGED <<state, cbs, torun>> /\ NoEmit
-       ELSE /\ state' = IF dstate = "done" THEN "FINISHED" ELSE "CANCELLED_AND_NOTIFIED"
+       \* seeded model bug no_notify_on_xcancel (change C02-r4m1): _me_delegate_cancelled leaves out
+       \* set_running_or_notify_cancel(): the state stays CANCELLED, wait() / as_completed() are never told
+       ELSE /\ state' = IF dstate = "done" THEN "FINISHED"
+                         ELSE IF Bug = "no_notify_on_xcancel" THEN "CANCELLED" ELSE "CANCELLED_AND_NOTIFIED"
             /\ torun' = [torun EXCEPT ![SET] = cbs]
             /\ cbs' = IF Bug = "keep_callbacks" THEN cbs ELSE <<>>
             /\ pc' = [pc EXCEPT ![SET] = "invoke"]
             /\ Emit(<<EvT("Observed", "set", 1, -1, IF dstate = "done" THEN 0 ELSE -1, IF dstate = "done" THEN 7 ELSE -1,
-                          IF dstate = "done" THEN "FINISHED" ELSE "CANCELLED_AND_NOTIFIED")>>)
+                          IF dstate = "done" THEN "FINISHED"
+                          ELSE IF Bug = "no_notify_on_xcancel" THEN "CANCELLED" ELSE "CANCELLED_AND_NOTIFIED")>>)
   /\ actor' = SET
   /\ UNCHANGED <<outcome, lock, dstate, cancelling>>
 
@@ -74,7 +80,10 @@ Invoke(t) ==    \* _me_invoke_callbacks(), outside the lock: one callback per st
   /\ pc[t] = "invoke"
   /\ IF torun[t] = <<>>
        THEN /\ pc' = [pc EXCEPT ![t] = IF t[1] = "can" THEN "ret_true" ELSE "done"] /\ NoEmit /\ UNCHANGED torun
-       ELSE /\ torun' = [torun EXCEPT ![t] = Tail(@)] /\ UNCHANGED pc
+       \* (callback 1 raises; the loop logs it and goes on.  Seeded model bug stop_at_raising_callback (change C02-r4m2):
+       \*  the try/except sits around the whole loop and the list was swapped out first - the rest is discarded)
+       ELSE /\ torun' = [torun EXCEPT ![t] = IF Bug = "stop_at_raising_callback" /\ Head(@) = 1 THEN <<>> ELSE Tail(@)]
+            /\ UNCHANGED pc
             /\ Emit(<<EvT("Callback", "t", 1, Head(torun[t]), IF Done THEN 1 ELSE 0, -1, "")>>)
   /\ actor' = t
   /\ UNCHANGED <<outcome, lock, state, cbs, dstate, cancelling>>
@@ -151,9 +160,23 @@ WRet ==         \* the condition is notified by every completion
   /\ actor' = W
   /\ UNCHANGED <<outcome, lock, state, cbs, dstate, cancelling, torun>>
 
+WCall2 ==
+  /\ pc[W2] = "w_call"
+  /\ pc' = [pc EXCEPT ![W2] = "w_wait"]
+  /\ Emit(<<EvT("WaitCall", "t", 1, 2, -1, -1, "wait")>>)
+  /\ actor' = W2
+  /\ UNCHANGED <<outcome, lock, state, cbs, dstate, cancelling, torun>>
+WRet2 ==        \* the waiter list is notified by FINISHED / CANCELLED_AND_NOTIFIED only
+  /\ pc[W2] = "w_wait" /\ state \in {"FINISHED", "CANCELLED_AND_NOTIFIED"}
+  /\ pc' = [pc EXCEPT ![W2] = "done"]
+  /\ Emit(<<EvT("WaitRet", "t", 1, 2, -1, -1, "")>>)
+  /\ actor' = W2
+  /\ UNCHANGED <<outcome, lock, state, cbs, dstate, cancelling, torun>>
+
 Quiescent == \A t \in Threads : /\ pc[t] \in {"done", "w_wait", "start"}
                                   /\ (pc[t] = "start" => outcome = "never")
-                                  /\ (pc[t] = "w_wait" => ~Done)      \* nothing is enabled any more
+                                  /\ (pc[t] = "w_wait" /\ t = W => ~Done)      \* nothing is enabled any more
+                                  /\ (pc[t] = "w_wait" /\ t = W2 => state \notin {"FINISHED", "CANCELLED_AND_NOTIFIED"})
 Finish ==       \* the harness' End
   /\ Quiescent /\ actor # <<"end", 0>>
   /\ Emit(<<EvT("End", "main", -1, -1, -1, -1, "")>>)
@@ -164,7 +187,7 @@ Next ==
   \/ SetDelegate \/ SetLocked \/ (\E t \in Threads : Invoke(t))
   \/ (\E i \in 1..NCan : CanCall(i) \/ CanLocked(i) \/ CanRet(i))
   \/ (\E k \in 1..NAdd : AddCall(k) \/ AddLocked(k) \/ AddDirect(k))
-  \/ WCall \/ WRet \/ Finish
+  \/ WCall \/ WRet \/ WCall2 \/ WRet2 \/ Finish
 Spec == Init /\ [][Next]_vars
 
 ContractHolds == viol = "ok"
